@@ -309,6 +309,7 @@ type pEnv struct {
 	w       *pWorld
 	pool    *flushable.SyncedPool
 	handles [pND]kvdb.Store
+	ro      [pND]kvdb.Store // read-only stores obtained from GetUnderlying beforehand (nil: ask every time)
 }
 
 func ascendingKnown(pairs []kvPair) string {
@@ -355,10 +356,16 @@ func (e *pEnv) exec(in pIn) fOut {
 	case pSizeEst:
 		out.N = e.pool.NotFlushedSizeEst()
 	case pUGet, pUHas, pUIter:
-		ro, err := e.pool.GetUnderlying(name)
-		if err != nil {
-			out.Err = err.Error()
-			break
+		// a store obtained earlier only waits for the "flushing" lock; GetUnderlying itself also
+		// waits for the pool mutex
+		ro := e.ro[in.D]
+		if ro == nil {
+			var err error
+			ro, err = e.pool.GetUnderlying(name)
+			if err != nil {
+				out.Err = err.Error()
+				break
+			}
 		}
 		switch in.Op {
 		case pUGet:
@@ -442,6 +449,9 @@ func (w *pWorld) expand(client int, in pIn, out fOut, call, ret int64) []porcupi
 	return []porcupine.Operation{mk(in, out)}
 }
 
+var pOpsBase = []int{pOpen, pNames, pNames, pUGet, pUGet, pUGet, pUHas, pUIter, hPut, hPut, hPut, hPut, hDelete, hGet, hGet, hHas,
+	hDropNF, hPairs, hPairs, hPairs, hSize, hSize, hFlush, hClose, hSnapshot, hIter}
+
 var stPool = stats.New("pool")
 
 // TestC28Pool. Linearizability-checked set (see the model comment above): OpenDB, Names, Flush,
@@ -463,6 +473,7 @@ func TestC28Pool(t *testing.T) {
 			w.names = append(w.names, fmt.Sprintf("p%d", i))
 		}
 		useInitialize := rapid.Bool().Draw(t, "initialize")
+		cacheRO := rapid.IntRange(0, 2).Draw(t, "cacheReadOnlyStores") > 0
 		initialFlush := rapid.IntRange(0, 2).Draw(t, "initialFlush") > 0
 
 		// sequential setup
@@ -493,6 +504,7 @@ func TestC28Pool(t *testing.T) {
 
 		lens, maxprocs := drawShape(t, 40)
 		perts := drawPerts(t, lens)
+		focus := drawFocus(t, append([]int{pFlush, pFlush, pFlush, pSizeEst, pSizeEst}, pOpsBase...))
 		progs := make([][]pIn, len(lens))
 		descr := make([][]string, len(lens))
 		multi := 0 // Flush / NotFlushedSizeEst calls (each expands into 1+len(names) model operations)
@@ -503,15 +515,22 @@ func TestC28Pool(t *testing.T) {
 			}
 			privState := 0 // 0 unopened, 1 open, 2 dropped
 			for i := 0; i < lens[g]; i++ {
-				ops := []int{pOpen, pNames, pNames, pUGet, pUGet, pUGet, pUHas, pUIter, hPut, hPut, hPut, hPut, hDelete, hGet, hGet, hHas,
-					hDropNF, hPairs, hPairs, hPairs, hSize, hSize, hFlush, hClose, hSnapshot, hIter}
+				ops := append([]int(nil), pOpsBase...)
+				fcs := focus
 				if multi < 6 {
 					ops = append(ops, pFlush, pFlush, pFlush, pSizeEst, pSizeEst)
+				} else {
+					fcs = nil
+					for _, o := range focus {
+						if o != pFlush && o != pSizeEst {
+							fcs = append(fcs, o)
+						}
+					}
 				}
 				if priv >= 0 && privState == 1 {
 					ops = append(ops, hDrop, hDrop, hDrop, hDrop)
 				}
-				in := pIn{Op: rapid.SampledFrom(ops).Draw(t, "op")}
+				in := pIn{Op: pickOp(t, ops, fcs)}
 				if priv >= 0 && privState == 0 && i == 0 && rapid.IntRange(0, 9).Draw(t, "openPrivateFirst") < 7 {
 					in = pIn{Op: pOpen}
 				}
@@ -576,6 +595,18 @@ func TestC28Pool(t *testing.T) {
 			env.handles[d] = h
 			state.DB[d].Present = true
 		}
+		cachedRO := func() {
+			if !cacheRO {
+				return
+			}
+			for d := 0; d < nSh; d++ {
+				ro, err := env.pool.GetUnderlying(w.names[d])
+				if err != nil || ro == nil {
+					t.Fatalf("GetUnderlying(%s): %v", w.names[d], err)
+				}
+				env.ro[d] = ro
+			}
+		}
 		applySeq := func(phase string, in pIn) fOut {
 			got := env.exec(in)
 			c := int64(0)
@@ -591,6 +622,7 @@ func TestC28Pool(t *testing.T) {
 		for _, in := range setup {
 			applySeq("sequential setup", in)
 		}
+		cachedRO()
 		init := state
 
 		ctx := &runCtx{}
@@ -613,7 +645,7 @@ func TestC28Pool(t *testing.T) {
 				if (in.Op == pUIter || in.Op == hIter) && (out.Content != "" || out.Err != "") {
 					weakProblem = fmt.Sprintf("g%d#%d %s: %s %s", g, i, w.str(in), out.Content, out.Err)
 				}
-				if (in.Op == pUGet || in.Op == pUHas || in.Op == pUIter) && !initialFlush && !useInitialize {
+				if (in.Op == pUGet || in.Op == pUHas || in.Op == pUIter) && !initialFlush && !useInitialize && !cacheRO {
 					lazyUnderlying = true
 				}
 				if in.Op == hDrop {
@@ -668,8 +700,8 @@ func TestC28Pool(t *testing.T) {
 			}
 		}
 		describe := func() string {
-			return formatHistory(fmt.Sprintf("synced pool names=%v (first %d shared) initialize=%v initialFlush=%v GOMAXPROCS=%d initial=%+v",
-				w.names, nSh, useInitialize, initialFlush, maxprocs, init), descr, hops, "")
+			return formatHistory(fmt.Sprintf("synced pool names=%v (first %d shared) initialize=%v initialFlush=%v cachedReadOnlyStores=%v GOMAXPROCS=%d initial=%+v",
+				w.names, nSh, useInitialize, initialFlush, cacheRO, maxprocs, init), descr, hops, "")
 		}
 		if len(res.panics) > 0 {
 			failHistory(t, "panic in a concurrent program: "+strings.Join(res.panics, "\n")+"\n"+describe())
@@ -703,10 +735,13 @@ func TestC28Pool(t *testing.T) {
 		if drops > 0 {
 			cls = append(cls, "with_drop")
 		}
+		if cacheRO {
+			cls = append(cls, "readonly_stores_cached")
+		}
 		if multi > 0 {
 			cls = append(cls, "with_pool_flush_or_sizeest")
 		}
-		stPool.Case(stats.Hash(w.names, useInitialize, setup, progs), nt, cls...)
+		stPool.Case(stats.Hash(w.names, useInitialize, cacheRO, setup, progs), nt, cls...)
 		stPool.Sample(func() interface{} {
 			return map[string]interface{}{"names": w.names, "shared": nSh, "gomaxprocs": maxprocs, "programs": descr, "overlapping_pairs": nov}
 		})
